@@ -24,7 +24,7 @@ RULE = (
     "variables for the request or the answer is a product / needs interpolation"
 )
 SPACE = {
-    "quick": "grid A (X:{C,L}, Y:{C,O}): all registries of <= 3 of 12 pool variables (1-D and non-separable 2-D single-axis metrics) (both list orders for pairs) x 6 array layouts x 6 requests; grid B (X:{C,L,R}, Y:{C,L}, Z:{C,O}): all registries of <= 3 of 11 variables x 3 array positions x 15 ordered requests; derived operations on every registry of grid A that answers; on grid A, after all queries one variable is overwritten by a twin on the same Grid object and every query is repeated",
+    "quick": "grid A (X:{C,L}, Y:{C,O}): all registries of <= 3 of 13 pool entries (1-D and non-separable 2-D single-axis metrics; one dataset variable entered for X and for Y) (both list orders for pairs) x 6 array layouts x 6 requests; grid B (X:{C,L,R}, Y:{C,L}, Z:{C,O}): all registries of <= 3 of 11 variables x 3 array positions x 15 ordered requests; derived operations on every registry of grid A that answers; on grid A, after all queries one variable is overwritten by a twin on the same Grid object and every query is repeated",
     "thorough": "registries of <= 4 variables on both grids, all list orders",
 }
 BOUNDS = {"quick": {"max_vars": 3}, "thorough": {"max_vars": 4}}
@@ -40,7 +40,9 @@ GRIDS = {
                     (("X", "Y"), dict(X="center", Y="center")), (("X", "Y"), dict(X="left", Y="outer")), (("X", "Y"), dict(X="left", Y="center")),
                     (("X",), dict(X="center"), "b"), (("Y",), dict(Y="outer"), "b"),
                     # single-axis metrics that vary along both axes (not separable)
-                    (("X",), dict(X="center", Y="center"), "2d"), (("Y",), dict(X="center", Y="center"), "2d"), (("X",), dict(X="left", Y="outer"), "2d")],
+                    (("X",), dict(X="center", Y="center"), "2d"), (("Y",), dict(X="center", Y="center"), "2d"), (("X",), dict(X="left", Y="outer"), "2d"),
+                    # the *same* dataset variable as pool entry 9 (an isotropic spacing) registered for the other axis as well
+                    (("Y",), dict(X="center", Y="center"), "alias", 9)],
               arrays=[("xc", "yc"), ("xl", "yc"), ("xc", "yo"), ("xl", "yo"), ("yc", "xc"), ("t", "yo", "xl")],
               requests=[("X",), ("Y",), ("X", "Y"), ("Y", "X"), "X", ["Y", "X"]]),
     "B": dict(lay={"X": ("center", "left", "right"), "Y": ("center", "left"), "Z": ("center", "outer")}, ns={"X": 2, "Y": 2, "Z": 2},
@@ -63,6 +65,10 @@ def ctx(gname):
         for i, spec in enumerate(G["pool"]):
             axes, posn = spec[0], spec[1]
             tag = spec[2] if len(spec) > 2 else ""
+            if tag == "alias":
+                o = vs[spec[3]]
+                vs.append(M.MVar(o.name, axes, o.dims, o.values))
+                continue
             name = "m" + "".join(a.lower() for a in axes) + "_" + "".join(S.SHORT[posn[a]] for a in posn) + tag
             vs.append(mg.make_var(name, axes, posn, pit))
         ds = mg.dataset(vs, extra={"t": 2})
@@ -153,7 +159,7 @@ def overwritten(gname, order, g=None, reg=None):
     return None
 
 
-def check_get_metric(rec, gname, order, ai, ri, seed, g=None, reg=None, swap=None):
+def check_get_metric(rec, gname, order, ai, ri, seed, g=None, reg=None, swap=None, after_refused=False):
     c = ctx(gname)
     mg = c["mg"]
     G = GRIDS[gname]
@@ -161,8 +167,19 @@ def check_get_metric(rec, gname, order, ai, ri, seed, g=None, reg=None, swap=Non
     case = dict(kind="get_metric", grid=gname, order=list(order), ai=ai, ri=ri)
     if swap:
         case["after_overwrite"] = swap
+    if after_refused:
+        case["after_refused"] = True
     if g is None:
         g, reg = make_grid(gname, order)
+        if after_refused:
+            for k in (1, 2, 3):
+                for ks in itertools.combinations(sorted(G["lay"]), k):
+                    try:
+                        with warnings.catch_warnings():
+                            warnings.simplefilter("ignore")
+                            g.set_metrics(ks, "no_such_variable")
+                    except Exception:
+                        pass
         if swap:
             # the history: every query first, then the overwrite, then the query under test
             for a2 in range(len(G["arrays"])):
@@ -178,7 +195,7 @@ def check_get_metric(rec, gname, order, ai, ri, seed, g=None, reg=None, swap=Non
     arr = arr_of(mg, dims, seed, dt=ai + ri)
     kind, cands = M.admissible(mg, reg, [d for d in dims if d != "t"], axes)
     ncand = len(cands) if cands else 0
-    rec.case((gname, tuple(order), ai, ri, tuple(swap or ())), kind == "set" and (ncand > 1 or any(w for _, w, _ in cands) or "*" in cands[0][2]),
+    rec.case((gname, tuple(order), ai, ri, tuple(swap or ()), after_refused), kind == "set" and (ncand > 1 or any(w for _, w, _ in cands) or "*" in cands[0][2]),
              sample=dict(case, dims=list(dims), request=req, registry=[c["vars"][i].name for i in order]))
     rec.counters["oracle:" + kind] += 1
     with warnings.catch_warnings(record=True) as w:
@@ -350,6 +367,21 @@ def run_shard(shard, tier, seed, rec):
                 got = check_get_metric(rec, gname, order, ai, ri, seed, g, reg)
                 if got is not None and gname == "A" and not isinstance(G["requests"][ri], list):
                     check_derived(rec, gname, order, ai, ri, seed, g, reg)
+        # a registration that is refused (a variable the dataset does not have), for every axis set: the registry and
+        # every answer stay what they were (every second registry)
+        if (lo + regs.index(order)) % 2 == 0:
+            keysets = [ks for k in (1, 2, 3) for ks in itertools.combinations(sorted(G["lay"]), k)]
+            for ks in keysets:
+                try:
+                    with warnings.catch_warnings():
+                        warnings.simplefilter("ignore")
+                        g.set_metrics(ks, "no_such_variable")
+                    rec.violation("get_metric", "unknown-variable-registered", dict(kind="get_metric", grid=gname, order=list(order), ai=0, ri=0, after_refused=True), "raise", "returned")
+                except Exception:
+                    pass
+            for ai in range(len(G["arrays"])):
+                for ri in range(len(G["requests"])):
+                    check_get_metric(rec, gname, order, ai, ri, seed, g, reg, after_refused=True)
         # the registry changes under the same Grid object: answers must follow it
         try:
             ow = overwritten(gname, order, g, reg)
@@ -365,6 +397,6 @@ def run_shard(shard, tier, seed, rec):
 
 def replay_case(case, seed, rec):
     if case["kind"] == "get_metric":
-        check_get_metric(rec, case["grid"], tuple(case["order"]), case["ai"], case["ri"], seed, swap=case.get("after_overwrite"))
+        check_get_metric(rec, case["grid"], tuple(case["order"]), case["ai"], case["ri"], seed, swap=case.get("after_overwrite"), after_refused=case.get("after_refused", False))
     else:
         check_derived(rec, case["grid"], tuple(case["order"]), case["ai"], case["ri"], seed)
